@@ -731,6 +731,11 @@ pub mod verif {
         }
     }
 
+    /// Event channel shared with the other verification hooks of the crate.
+    pub(crate) fn record_event(kind: &'static str, signature: String, detail: String) {
+        V.with(|v| record(v, kind, signature, detail));
+    }
+
     fn short_type(name: &'static str) -> &'static str {
         // "core::cell::RefCell<yarel::object::ObjVec>" -> "ObjVec>"-free short form
         let trimmed = name.trim_end_matches('>');
